@@ -24,7 +24,7 @@ from qsim.threads import Baton
 
 PROPERTIES = ["C12"]
 SIM_TIME_UNIT = "scheduler steps (ops + thread pre-emption points)"
-HANG_S = 600
+HANG_S = 2400   # the longest sequential history of the thorough tier (thousands of parses) takes ~10 min on a busy machine
 CHUNK = 1
 COMPONENTS = {
     "real": ["all of /repo/ctparse (search, rules, scorer, model, latent post-processing)",
@@ -1033,7 +1033,7 @@ def plan(prop, tier, seed):
         ops += [{"op": "STEP", "h": 0, "c": 1}] * 40
         cases.append({"kind": "task", "pool": [e1, e2], "ops": ops, "hashseeds": hashseeds})
     # -- long sequential histories
-    for i, n_distinct in enumerate([450] if quick else [300, 450, 700, 1100, 2100, 4200]):
+    for i, n_distinct in enumerate([450] if quick else [300, 450, 700, 1100, 2100, 3000]):
         r = core.stream(core.derive_seed(base, "long", i), "sched")
         texts = []
         seen_t = set()
